@@ -15,8 +15,33 @@ def supp_observe(source, R):
     from supp.nast import extract_scope
     from supp.util import Source, get_name_usages, np
     from supp import assistant
-    project = Project(['/nonexistent-verif-root'])
-    fname = '/nonexistent-verif-root/mscope.py'
+    import os
+    import shutil
+    import tempfile
+    root = '/nonexistent-verif-root'
+    tmp = None
+    if R.star_files:
+        # star-imported modules must exist for supp: a project directory of their own
+        tmp = root = tempfile.mkdtemp(prefix='mscope-')
+        for mod, text in R.star_files.items():
+            with open(os.path.join(root, mod + '.py'), 'w') as fd:
+                fd.write(text)
+    try:
+        return _observe(source, R, root)
+    finally:
+        if tmp:
+            shutil.rmtree(tmp, ignore_errors=True)
+
+
+def _observe(source, R, root):
+    import os
+    from supp.project import Project
+    from supp.linter import lint
+    from supp.nast import extract_scope
+    from supp.util import Source, get_name_usages, np
+    from supp import assistant
+    project = Project([root])
+    fname = os.path.join(root, 'mscope.py')
     diags = lint(project, source, fname)
     e02 = {(d[2], d[3]) for d in diags if d[0] == 'E02'}
     e42 = {(d[2], d[3]) for d in diags if d[0] == 'E42'}
@@ -24,8 +49,14 @@ def supp_observe(source, R):
     extract_scope(src, project)
     by_pos = {np(n): n for n in get_name_usages(src.tree)}
     from supp.name import MultiName, UndefinedName, RuntimeName
-    site_by_pos = {tuple(v): k for k, v in R.site_pos.items()}
-    unused = sorted({site_by_pos[(d[2], d[3])] for d in diags if d[0] in ('W01', 'W02') and (d[2], d[3]) in site_by_pos})
+    site_by_pos = {(v[0], v[1], R.site_name[k]): k for k, v in R.site_pos.items()}
+    unused = set()
+    for d in diags:
+        if d[0] in ('W01', 'W02'):
+            k = (d[2], d[3], d[1].split(': ', 1)[1])
+            if k in site_by_pos:
+                unused.add(site_by_pos[k])
+    unused = sorted(unused)
     rd = []
     for rid in sorted(R.read_pos):
         ln, col, nm = R.read_pos[rid]
@@ -43,7 +74,7 @@ def supp_observe(source, R):
                         o['alts'].append(-1)
                     else:
                         da = getattr(a, 'declared_at', None)
-                        o['alts'].append(site_by_pos.get(tuple(da), -2) if da else -2)
+                        o['alts'].append(site_by_pos.get((da[0], da[1], nm), -2) if da else -2)
         try:
             pfx, props = assistant.assist(project, source, (ln, col + len(nm)), fname)
             o['assist'] = nm in props
